@@ -187,7 +187,7 @@ def _enum_chunks(tier):
 def _enum_cases(ch):
     spec = (models.NAMED + FIXED_CUSTOM)[ch['m']]
     for b in bases_for(spec):
-        for k in range(5):
+        for k in (0, 1, 2, 3, 4, 9, 10, 11, 16):
             yield {'k': 'role', 'model': spec, 'r': b + '-of' * k}
 
 
@@ -205,7 +205,7 @@ def _random(draw):
         b = draw(st.sampled_from(pool))
         if draw(st.integers(0, 4)) == 0 and b.startswith(':'):
             b = b[1:]
-    return {'k': 'role', 'model': spec, 'r': b + '-of' * draw(st.integers(0, 4))}
+    return {'k': 'role', 'model': spec, 'r': b + '-of' * draw(st.sampled_from([0, 1, 2, 3, 4, 4, 5, 10, 13]))}
 
 
 def stages(tier):
